@@ -179,22 +179,38 @@ package database
 //@ opaque func termHits(db *Database, idx *universalIndex, t string, d int) bool = (t in idx.postings) && bm25IDF(idx.N, idx.df[t]) >= idx.params.minIDF && (exists j int :: 0 <= j && j < len(idx.postings[t]) && idx.postings[t][j].docID == d && eligible(&db.Commands[d]))
 // hitSome: some content word of the token sequence q hits document d.
 //@ opaque func hitSome(db *Database, idx *universalIndex, q seq, d int) bool = exists i int :: 0 <= i && i < seqlen(q) && termHits(db, idx, seqat(q, i), d)
+// Per-term boost (C13): the context boost of the term, raised to 2.0 for a detected action and to
+// 1.6 for a detected target; values that are not positive mean "no boost" (factor 1).
+//@ pure func inListUpTo(s []string, n int, t string) bool = exists i int :: 0 <= i && i < n && s[i] == t
+//@ pure func mx(a float64, b float64) float64 = a >= b ? a : b
+//@ pure func effOf(x float64) float64 = x > 0.0 ? x : 1.0
+//@ pure func boostA(cb map[string]float64, pq *nlp.ProcessedQuery, na int, t string) float64 = inListUpTo(pq.Actions, na, t) ? mx(cb[t], 2.0) : cb[t]
+//@ pure func boostAT(cb map[string]float64, pq *nlp.ProcessedQuery, na int, nt int, t string) float64 = inListUpTo(pq.Targets, nt, t) ? mx(boostA(cb, pq, na, t), 1.6) : boostA(cb, pq, na, t)
+//@ pure func rawBoost(cb map[string]float64, pq *nlp.ProcessedQuery, t string) float64 = pq == nil ? cb[t] : boostAT(cb, pq, len(pq.Actions), len(pq.Targets), t)
+// Raising a boost factor never lowers a contribution (idf and the BM25F term are non-negative),
+// and supplying a context boost >= 1 for a word never lowers that word's effective factor.
+//@ lemma C13.boost-monotone forall idf, b1, b2, x float64 :: idf >= 0.0 && x >= 0.0 && b1 <= b2 ==> (idf * b1) * x <= (idf * b2) * x
+//@ lemma C13.context-boost-raises forall c float64, ia, it bool :: c >= 1.0 ==> effOf(it ? mx(ia ? mx(c, 2.0) : c, 1.6) : (ia ? mx(c, 2.0) : c)) >= effOf(it ? mx(ia ? mx(0.0, 2.0) : 0.0, 1.6) : (ia ? mx(0.0, 2.0) : 0.0))
 //@ func (*Database).calculateInitialScores
 //@   requires idxOK(db)
 //@   defines forall c *Command :: eligible(c) <==> (platOK(c, options) && pipeOK(c, options))
 //@   modifies nothing
 //@   ensures[C01.initial-scores-ok] fresh(result) && scoresOK(db, result, options)
 //@   ensures[C03.candidates-exact] forall d int :: (d in result) <==> (exists i int :: 0 <= i && i < len(terms) && termHits(db, db.uIndex, terms[i], d))
+//@   hint[C13.boost-of-term] processPostingsForTerm boost == effOf(rawBoost(options.ContextBoosts, pq, term)) && idf == bm25IDF(idx.N, idx.df[term]) && idf >= idx.params.minIDF && postings == idx.postings[term]
 //@ loop 1
 //@   invariant termBoost != nil && fresh(termBoost) && scores != nil && fresh(scores) && len(scores) == 0
+//@   invariant forall k string :: termBoost[k] == ((k in $visited) ? options.ContextBoosts[k] : 0.0)
 //@ loop 2
-//@   invariant termBoost != nil && fresh(termBoost) && scores != nil && fresh(scores) && len(scores) == 0
+//@   invariant termBoost != nil && fresh(termBoost) && scores != nil && fresh(scores) && len(scores) == 0 && pq != nil
+//@   invariant forall k string :: termBoost[k] == boostA(options.ContextBoosts, pq, $i, k)
 //@ loop 3
-//@   invariant termBoost != nil && fresh(termBoost) && scores != nil && fresh(scores) && len(scores) == 0
+//@   invariant termBoost != nil && fresh(termBoost) && scores != nil && fresh(scores) && len(scores) == 0 && pq != nil
+//@   invariant forall k string :: termBoost[k] == boostAT(options.ContextBoosts, pq, len(pq.Actions), $i, k)
 //@ loop 4
 //@   invariant termBoost != nil && fresh(termBoost) && fresh(scores) && scoresOK(db, scores, options) && scores != termBoost
 //@   invariant forall d int :: (d in scores) <==> (exists i int :: 0 <= i && i < $i && termHits(db, idx, terms[i], d))
-
+//@   invariant forall k string :: termBoost[k] == rawBoost(options.ContextBoosts, pq, k)
 // Multiplicative boosts are strictly positive (they re-rank, never flip a sign).
 //@ func applyIntentBoost
 //@   modifies nothing
